@@ -3,6 +3,7 @@
 import { f1Depth1, f1Overlap, f3, packPrograms, packInline, Alias, Iface, Enum, Ref, Param, ObjT, Prop, U, I, L, P, ArrT, Tup, EnumMember, renderProgram } from "./spec.mjs";
 import { f2 } from "./spec2.mjs";
 import { TIER, SEED } from "./common.mjs";
+import { CompilePool, classify, DEFAULT_SETTINGS } from "./compile.mjs";
 
 // ---- generic traversal -----------------------------------------------------------------------------------
 export function children(t) {
@@ -327,6 +328,7 @@ export const STYLES = {
   comments: { comments: true },
   jsdoc: { jsdoc: true },
   parens: { parens: true },
+  "parens-twice": { parens: 2 },
 };
 
 function reaches(prog, from, target, seen = new Set()) {
@@ -422,13 +424,45 @@ function extraBases() {
   return progs;
 }
 
+// A base program with a parser beff does not compile (e.g. `{ [K in string]: K }`) would take its 29 neighbours out of
+// every comparison: such parsers are found by compiling them one by one and removed from the base (counted).
+export const droppedFromBases = { parsers: 0, programs: 0, samples: [] };
+async function compilableBases(bases) {
+  const pool = new CompilePool({ size: 8 });
+  try {
+    return (
+      await Promise.all(
+        bases.map(async (b) => {
+          const ok = async (prog) => classify(await pool.request({ files: { "entry.ts": renderProgram({ ...prog, text: undefined }) }, settings: DEFAULT_SETTINGS })).kind === "code";
+          if (await ok(b)) return b;
+          const keep = [];
+          for (const pr of b.parsers) {
+            if (await ok({ ...b, parsers: [pr] })) keep.push(pr);
+            else {
+              droppedFromBases.parsers++;
+              if (droppedFromBases.samples.length < 6) droppedFromBases.samples.push(String(pr[0]) + " of " + b.family + "#" + (b.index ?? b.note));
+            }
+          }
+          if (keep.length === 0 || !(await ok({ ...b, parsers: keep }))) {
+            droppedFromBases.programs++;
+            return null;
+          }
+          return { ...b, parsers: keep, text: undefined };
+        }),
+      )
+    ).filter(Boolean);
+  } finally {
+    pool.close();
+  }
+}
+
 // {base, variants:[{rewrite, prog, nameMap, hash32}]}; mode "hash": only the rewrites C13 lists
 export async function rewriteVariants({ mode = "all", pairs = false } = {}) {
   const hashOnly = ["reverse-object-properties", "rename-parsers", "rename-declarations-fresh", "rename-declarations-reversed-order", "swap-declaration-names", "rename-type-parameters-fresh", "introduce-alias", "alias-whole-parser-type", "inline-alias", "reverse-declarations"];
   const hash32Extra = ["reverse-union-members", "reverse-intersection-members"];
   const names = mode === "hash" ? [...hashOnly, ...hash32Extra] : Object.keys(REWRITES);
   const out = [];
-  for (const base of basePrograms({ computed: mode !== "hash" })) {
+  for (const base of await compilableBases(basePrograms({ computed: mode !== "hash" }))) {
     const variants = [];
     for (const rn of names) {
       let vs;
